@@ -17,8 +17,8 @@ func catalogue(tier string) []cfg {
 		}
 		return k
 	}
-	ld := func(k cfg, n, b int) cfg { // the cap of the left-deep orders: b departures from index order, at most 2 from 7 parties on
-		if n >= 7 && b > 2 {
+	ld := func(k cfg, n, b int) cfg { // the cap of the left-deep orders: b departures from index order, at most 2 from 7 parties on except for one protocol per layer
+		if n >= 7 && b > 2 && k.proto != "ks-shared" && k.proto != "bgv-refresh" && k.proto != "ckks-refresh" {
 			b = 2
 		}
 		k.n, k.mode, k.bound = n, mp.LeftDeep, b
